@@ -357,10 +357,17 @@ class InProtocolBase(ProtocolMixin):
                                           "characters" % cls_attrs.max_str_len)
 
         try:
-            return D(string)
+            value = D(string)
         except (InvalidOperation, TypeError, ValueError) as e:
             # the latter two: not a number or text at all (e.g. a list)
             raise ValidationError(string, "%%r: %r" % e)
+
+        # xs:decimal has neither NaN nor INF, and comparing a NaN with the
+        # declared bounds raises InvalidOperation later on.
+        if not value.is_finite():
+            raise ValidationError(string, "%r is not a finite decimal")
+
+        return value
 
     def decimal_from_bytes(self, cls, string):
         return self.decimal_from_unicode(cls,
